@@ -13,6 +13,7 @@ import EsbuildModel.Impl.TsEnum
 import EsbuildModel.Impl.Rename
 import EsbuildModel.Impl.Writes
 import EsbuildModel.Impl.SmSections
+import EsbuildModel.Impl.Ctx
 
 open EsbuildModel
 
@@ -33,6 +34,7 @@ def dispatch (kernel : String) (args : List String) : String :=
   | "rename" => Rename.driver args
   | "writes" => Writes.driver args
   | "smsections" => SmSections.driver args
+  | "ctx" => Ctx.driver args
   | _ => "bad-kernel"
 
 partial def loop (hin hout : IO.FS.Stream) : IO Unit := do
